@@ -13,6 +13,7 @@ import (
 	"context"
 	"flag"
 	"fmt"
+	"github.com/henrylee2cn/erpc/v6/plugin/secure"
 	"sort"
 	"strings"
 	"sync"
@@ -592,7 +593,20 @@ func hashStr(s string) uint64 {
 // ---------------- (c) hostile replies ----------------
 
 var hostileKinds = []string{"good", "codec0-body", "unknown-codec", "undecodable", "wrong-seq", "negative-seq", "dup-one-write", "dup-delayed", "truncated", "status", "oversize",
-	"call-type-same-seq", "unregistered-filter", "empty-body", "two-different-replies", "status-malformed", "status-malformed-nocodec"}
+	"call-type-same-seq", "unregistered-filter", "empty-body", "two-different-replies", "status-malformed", "status-malformed-nocodec",
+	"pb-good", "pb-length-overflow", "pb-length-huge", "pb-truncated-varint", "pb-wrong-wiretype", "pb-group-end", "pb-empty"}
+
+// pbBodies are reply bodies under the protobuf body codec for a result type with a generated decoder (plugin/secure.Encrypt:
+// field 1 string, field 2 string): well-formed, and malformed in the ways generated decoders are sensitive to
+var pbBodies = map[string][]byte{
+	"pb-good":             {0x0a, 0x02, 'v', '1', 0x12, 0x03, 'a', 'b', 'c'},
+	"pb-length-overflow":  append([]byte{0x0a, 0x01, 'v', 0x12}, 0xf5, 0xff, 0xff, 0xff, 0xff, 0xff, 0xff, 0xff, 0x7f), // length MaxInt64-10
+	"pb-length-huge":      {0x0a, 0x01, 'v', 0x12, 0xff, 0xff, 0xff, 0xff, 0x07, 'x'},                                  // length 2^31-1, one byte present
+	"pb-truncated-varint": {0x0a, 0x01, 'v', 0x12, 0x80},
+	"pb-wrong-wiretype":   {0x0d, 0x01, 0x02, 0x03, 0x04, 0x12, 0x01, 'x'},
+	"pb-group-end":        {0x0c, 0x12, 0x01, 'x'},
+	"pb-empty":            {},
+}
 
 func runHostile(e *env, kind, resKind string, idx int) {
 	p := e.p
@@ -617,6 +631,8 @@ func runHostile(e *env, kind, resKind string, idx int) {
 		result = new(tok.Arg)
 	case "bytes":
 		result = new([]byte)
+	case "pbgen":
+		result = new(secure.Encrypt)
 	}
 	arg := interface{}(&tok.Arg{Tok: "t", Pay: "p"})
 	cod := byte(codec.ID_JSON)
@@ -693,6 +709,8 @@ func runHostile(e *env, kind, resKind string, idx int) {
 			kind = "good" // the pipe id is not at a fixed offset here: a well-formed reply through a registered filter
 		}
 		writes = append(writes, b)
+	case "pb-good", "pb-length-overflow", "pb-length-huge", "pb-truncated-varint", "pb-wrong-wiretype", "pb-group-end", "pb-empty":
+		writes = append(writes, pack(mk(seq, codec.ID_PROTOBUF, string(pbBodies[kind]), "")))
 	case "empty-body":
 		writes = append(writes, pack(mk(seq, codec.ID_JSON, "", "")))
 	case "status-malformed", "status-malformed-nocodec":
@@ -726,7 +744,8 @@ func runHostile(e *env, kind, resKind string, idx int) {
 	// a complete frame of type REPLY addressed to the pending call has arrived: whatever its content, the call is complete
 	// now (with the reply or an error), with the connection kept or dropped - no further event is needed
 	switch kind {
-	case "codec0-body", "unknown-codec", "undecodable", "dup-one-write", "dup-delayed", "two-different-replies", "status", "empty-body", "status-malformed", "status-malformed-nocodec":
+	case "codec0-body", "unknown-codec", "undecodable", "dup-one-write", "dup-delayed", "two-different-replies", "status", "empty-body", "status-malformed", "status-malformed-nocodec",
+		"pb-good", "pb-length-overflow", "pb-length-huge", "pb-truncated-varint", "pb-wrong-wiretype", "pb-group-end", "pb-empty":
 		if !(isDone(t.issued) && isDone(t.cmd.Done())) {
 			vs = append(vs, viol{"reply-arrived-call-incomplete", fmt.Sprintf("a complete reply frame addressed to the call was delivered (%s), the process is quiescent, the call is still incomplete", kind)})
 		}
@@ -863,7 +882,10 @@ func main() {
 		// (c)
 		for k := 0; k < nHostile; k++ {
 			for _, kind := range hostileKinds {
-				for _, rk := range []string{"struct", "bytes", "nil"} {
+				for _, rk := range []string{"struct", "bytes", "nil", "pbgen"} {
+					if _, isPB := pbBodies[kind]; isPB != (rk == "pbgen") {
+						continue // the protobuf bodies go with the generated result type only (and that type with those bodies only)
+					}
 					if mine() {
 						if p.Struct {
 							continue
